@@ -333,18 +333,25 @@ theorem evalCallExpr_sym_simF (x : String) (hx : okSym x = true) (n : Nat) {m : 
 
 /-- an operand that is not a symbol, given the segment lemma for it at the same reference fuel -/
 theorem evalCallExpr_nonsym_simF {n : Nat} (hE : FClaimE n) (e : Expr) (he : Ff false "" e = true) (hns : ∀ x, e ≠ .sym x)
-    {m : Nat → Nat} {s : St} {rs : Ref.St} {env : Nat} (hrel : RelF m s rs env) :
-    EvalOkF e m s rs env (Ref.eval n e env rs) := by
-  obtain ⟨code, t, gs', hc, hne, hk⟩ := compile_total_Ff false "" e he (isFnScope s) {}
-    { fns := s.fns, loops := s.loops, loopstack := s.loopstack, live := s.linear } (Or.inl rfl)
-  have hgs := hk.2 rfl
-  subst hgs
-  have hgen : (runGen (compile (isFnScope s) {} e)).run s = (.ok (code, t), s) :=
-    run_runGen_any _ s _ _ hc rfl
+    {m : Nat → Nat} {s0 : St} {rs : Ref.St} {env : Nat} (hrel0 : RelF m s0 rs env) :
+    EvalOkF e m s0 rs env (Ref.eval n e env rs) := by
+  obtain ⟨code, t, gs', hc, hne, hk⟩ := compile_total_Ff false "" e he (isFnScope s0) {}
+    { fns := s0.fns, loops := s0.loops, loopstack := s0.loopstack, live := s0.linear } (Or.inl rfl)
+  have hfns : gs'.fns = s0.fns := hk.2 rfl
+  -- the generator may have registered loop records (a `for` inside the operand): `s` is `s0` with them
+  have hgen : (runGen (compile (isFnScope s0) {} e)).run s0 = (.ok (code, t), withLoops s0 gs') :=
+    run_runGen_any _ s0 _ gs' hc hfns
+  generalize hs : withLoops s0 gs' = s at hgen
+  have hrel : RelF m s rs env := by
+    subst hs; exact hrel0.of_same rfl rfl rfl rfl rfl rfl hrel0.heap hrel0.trace hrel0.hok
+  have hs0 : FrameF s0 s ∧ s.data = s0.data ∧ s.pc = s0.pc := by
+    subst hs
+    exact ⟨⟨⟨rfl, rfl, rfl, rfl, Nat.le_refl _, fun _ _ => rfl, hk.1.loopsLen, hk.1.loopsGet⟩, Nat.le_refl _, fun _ _ => rfl⟩,
+      rfl, rfl⟩
   have hseg := seg_inHelper s code
-  have hsim := hE false "" e he (isFnScope s) {} _ ((code, t), _) hc (Or.inl rfl) m (inHelper s code) rs env [] [.ret]
+  have hsim := hE false "" e he (isFnScope s0) {} _ ((code, t), _) hc (Or.inl rfl) m (inHelper s code) rs env [] [.ret]
     (relF_inHelper hrel code) (fun h => by cases h) hseg
-  have hunf := fun fuel => evalCallExpr_nonsym fuel e hns s s code t hgen hne
+  have hunf := fun fuel => evalCallExpr_nonsym fuel e hns s0 s code t hgen hne
   cases hres : Ref.eval n e env rs with
   | ok v' rs' =>
     rw [hres] at hsim
@@ -361,9 +368,11 @@ theorem evalCallExpr_nonsym_simF {n : Nat} (hE : FClaimE n) (e : Expr) (he : Ff 
       (fr4.fns id (by show id < (s.fns ++ [_]).length; simp; omega)).trans (fnOf_inHelper_old s code id hid)
     have hframe : FrameF s { s4 with addr := s.addr, curfunc := s.curfunc, pc := s.pc, data := s.data } :=
       ⟨⟨fr4.linear, rfl, rfl, fr4.susp, hfl, hfo, fr4.loopsLen, fr4.loops⟩, fr4.scLen, fr4.flags⟩
+    have hfn0 : s.fns.length = s0.fns.length := by subst hs; rfl
     refine ⟨M + 2, { s4 with addr := s.addr, curfunc := s.curfunc, pc := s.pc, data := s.data }, m4, v,
-      fun fuel hf => ?_, rfl, rfl, hv, ?_, fun id hid => hm4 id (by show id < (s.fns ++ [_]).length; simp; omega),
-      ext4, hframe, ?_⟩
+      fun fuel hf => ?_, hs0.2.1, hs0.2.2, hv, ?_,
+      fun id hid => hm4 id (by show id < (s.fns ++ [_]).length; simp; omega),
+      ext4, hs0.1.trans hframe, ?_⟩
     · obtain ⟨f, rfl⟩ : ∃ f, fuel = f + 2 := ⟨fuel - 2, by omega⟩
       rw [hunf f, hM f (by omega)]
       simp only [hbal]
